@@ -93,19 +93,22 @@ func init() {
 		return L(xs...)
 	}
 	Exec["bmtree.PathStr/bulk"] = func(a []V) string {
-		k := a[1].Int()
+		k, stride := a[1].Int(), a[2].U64()
 		first := make([]uint64, 0, k)
 		dg, i := uint64(0), uint64(1)
-		for _, sg := range a[0].L {
+		for si, sg := range a[0].L {
 			h, l := sg.L[0].I32(), sg.L[1].I32()
 			start, count := sg.L[2].U64(), sg.L[3].U64()
 			for x := start; x < start+count; x++ {
 				w := bmtree.NewPath(x<<uint(h-l), l, h)
-				if len(first) < k {
+				if si == 0 && len(first) < k {
 					first = append(first, w)
 				}
-				dg += c10Digest(bmtree.PathStr(w)) * i
-				i++
+				s := bmtree.PathStr(w) // every prefix is rendered; every stride-th text is observed
+				if (x-start)%stride == 0 {
+					dg += c10Digest(s) * i
+					i++
+				}
 			}
 		}
 		again := make([]string, len(first))
@@ -635,17 +638,18 @@ func genC10Wide(g *Gen) {
 	}
 
 	// (d) bulk: more than 65536 DISTINCT paths in this process (heights 17..20), then the first ones again
-	bulk := func(segs [][4]int, k int, key string) {
+	bulk := func(segs [][4]int, k, stride int, key string) {
 		g.Stat("bulk")
 		xs := make([]string, len(segs))
 		for i, sg := range segs {
 			xs[i] = L(Int(sg[0]), Int(sg[1]), Int(sg[2]), Int(sg[3]))
 		}
-		g.Do("bmtree.PathStr/bulk", L(L(xs...), Int(k)), key)
+		g.Do("bmtree.PathStr/bulk", L(L(xs...), Int(k), Int(stride)), key)
 	}
-	bulk([][4]int{{17, 17, 0, 16700}, {18, 18, 3, 16700}, {19, 19, 1 << 18, 16700}, {20, 20, 1<<20 - 16700, 16700}}, 16, "bulk/66800")
+	bulk([][4]int{{17, 17, 0, 16700}, {18, 18, 3, 16700}, {19, 19, 1 << 18, 16700}, {20, 20, 1<<20 - 16700, 16700}}, 16, 61, "bulk/66800")
+	bulk([][4]int{{9, 9, 0, 512}, {10, 7, 100, 28}}, 8, 1, "bulk/540")
 	if g.Thorough {
-		bulk([][4]int{{17, 16, 0, 65536}, {20, 12, 0, 4096}, {18, 18, 100000, 70000}}, 32, "bulk/139632")
+		bulk([][4]int{{17, 16, 0, 65536}, {20, 12, 0, 4096}, {18, 18, 100000, 70000}}, 32, 7, "bulk/139632")
 	}
 	// ... and the paths this process rendered FIRST (the start of genC10's exhaustive section) once more
 	for h := 1; h <= 3; h++ {
